@@ -13,7 +13,7 @@ nor the fix log).  Ghost state:
   nerr_mark : value of nerr when the violations were cleared before the final check
 """
 
-GHOSTS = {"nerr_mark": "int", "stage": "str", "grules": "list[obj:vsg.rule.Rule]", "gfile": "obj:vsg.vhdlFile.vhdlFile.vhdlFile"}
+GHOSTS = {"lr_missing": "bool", "nerr_mark": "int", "stage": "str", "grules": "list[obj:vsg.rule.Rule]", "gfile": "obj:vsg.vhdlFile.vhdlFile.vhdlFile"}
 
 CLA = "obj:argparse.Namespace"
 CFG = "obj:vsg.config.config"
@@ -26,7 +26,7 @@ FIELDS = {
     "argparse.Namespace.backup": "bool",
     "argparse.Namespace.all_phases": "bool",
     "argparse.Namespace.fix_phase": "int",
-    "argparse.Namespace.skip_phase": "opt[list[int]]",
+    "argparse.Namespace.skip_phase": "list[int]",
     "argparse.Namespace.output_format": "str",
     "argparse.Namespace.local_rules": "opt[str]",
     "argparse.Namespace.junit": "opt[str]",
@@ -51,6 +51,10 @@ def stub(**kw):
 
 FS_SAME = "fs_exists == old(fs_exists) and fs_content == old(fs_content) and fs_mode == old(fs_mode)"
 SKIPL = "commandLineArguments.skip_phase"
+# representation invariant of the model (every line ends in a carriage_return token): what _processFile establishes and
+# every fix is expected to keep; a HYPOTHESIS of the clauses about the write (observed by the bounded layer, not proved)
+REP = "(len(gfile.lAllObjects) == 0 or isinstance(gfile.lAllObjects[len(gfile.lAllObjects) - 1], parser.carriage_return))"
+PRE = "old(oplog) + ['read', 'parse', 'indentmap', 'rules', 'config']"
 
 CONTRACTS = {
     "vsg.vhdlFile.utils.read_vhdlfile": stub(types={"sFileName": "str"}, returns="tuple[list[str],opt[obj:builtins.Exception]]", modifies=["ghost:oplog"], ensures=["oplog == old(oplog) + ['read']"]),
@@ -65,6 +69,8 @@ CONTRACTS = {
     "vsg.rule_list.rule_list.__init__": stub(
         modifies=["ghost:oplog", "ghost:stage", "ghost:grules"],
         raises=["OSError"],
+        # only a local rules directory that cannot be read makes the constructor fail
+        raises_when={"OSError": "sLocalRulesDirectory is not None and lr_missing"},
         on_raise={"*": dict(modifies=["ghost:oplog", "ghost:stage"], ensures=["oplog == old(oplog) + ['rules']", "stage == 'local_rules'"])},
         ensures=[
             "oplog == old(oplog) + ['rules']",
@@ -82,7 +88,14 @@ CONTRACTS = {
         on_raise={"*": dict(modifies=["ghost:oplog", "ghost:stage"], ensures=["oplog == old(oplog) + ['config']", "stage == 'config'"])},
         ensures=["oplog == old(oplog) + ['config']", "stage == old(stage)"],
     ),
-    "vsg.rule_list.rule_list.clear_violations": stub(modifies=["ghost:oplog", "ghost:nerr_mark", "heap:Rule.violations"], ensures=["oplog == old(oplog) + ['clear']", "nerr_mark == nerr"]),
+    # verified: every rule of the list ends with no violations; the log event and the nerr mark are ghost code
+    "vsg.rule_list.rule_list.clear_violations": dict(
+        modifies=["ghost:oplog", "ghost:nerr_mark", "heap:Rule.violations"],
+        ghost_exit={"oplog": "oplog + ['clear']", "nerr_mark": "nerr"},
+        locals={"oRule": "obj:vsg.rule.Rule"},
+        ensures=["oplog == old(oplog) + ['clear']", "nerr_mark == nerr", "forall(lambda k: self.rules[k].violations == [], 0, len(self.rules))"],
+        loops={1: dict(invariant=["forall(lambda k: self.rules[k].violations == [], 0, _i)"])},
+    ),
     "vsg.rule_list.rule_list.report_violations": stub(types={"sOutputFormat": "str"}, returns="tuple[str,str]", modifies=["ghost:oplog"], ensures=["oplog == old(oplog) + ['report']"]),
     "vsg.rule_list.rule_list.extract_junit_testcase": stub(types={"sVhdlFileName": "str"}, returns="obj:vsg.junit.testcase"),
     "vsg.rule_list.rule_list.extract_violation_dictionary": stub(returns="rec{violations:list[obj:builtins.dict]}"),
@@ -92,7 +105,7 @@ CONTRACTS = {
         types={"commandLineArguments": CLA, "oConfig": CFG, "tIndexFileName": "tuple[int,str]"},
         requires=["oserr == ''", "stage == ''"],
         returns="tuple[val,opt[obj:vsg.junit.testcase],obj:builtins.dict,str,opt[str],bool]",
-        modifies=["ghost:oplog", "ghost:fixlog", "ghost:nerr", "ghost:stage", "ghost:nerr_mark", "ghost:grules", "ghost:gfile", "ghost:fs_exists", "ghost:fs_content", "ghost:fs_mode", "ghost:oserr", "heap:Rule.violations", "heap:Rule.had_violations", "heap:Rule.disable", "heap:Rule.fixable", "heap:Rule.phase", "heap:Rule.subphase", "heap:Rule.severity", "heap:rule_list.had_violations", "heap:rule_list.violations", "heap:rule_list.iNumberRulesRan", "heap:rule_list.lastPhaseRan"],
+        modifies=["ghost:oplog", "ghost:fixlog", "ghost:nerr", "ghost:stage", "ghost:nphases", "ghost:nerr_mark", "ghost:grules", "ghost:gfile", "ghost:fs_exists", "ghost:fs_content", "ghost:fs_mode", "ghost:oserr", "heap:Rule.violations", "heap:Rule.had_violations", "heap:Rule.disable", "heap:Rule.fixable", "heap:Rule.phase", "heap:Rule.subphase", "heap:Rule.severity", "heap:vhdlFile.lAllObjects", "heap:vhdlFile.oTokenMap", "heap:item.value", "heap:item.indent", "heap:New.lTokens", "heap:rule_list.had_violations", "heap:rule_list.violations", "heap:rule_list.iNumberRulesRan", "heap:rule_list.lastPhaseRan"],
         # ClassifyError, ConfigurationError and the OSError of a missing local rules directory never escape (C19)
         raises=["OSError", "FileNotFoundError", "PermissionError"],
         ensures=[
@@ -110,8 +123,11 @@ CONTRACTS = {
             # C08 / C13 / C14: the order of operations of an accepted file: fixing (phases 1..fix_phase, skip_phase honoured)
             # is complete before the single write; the write happens exactly when something was fixed; the report and the
             # exit status come from a fresh check of the same model with the same skip list and --all_phases flag
-            "implies(stage == '' and not commandLineArguments.fix, exists(lambda n: oplog == old(oplog) + ['read', 'parse', 'indentmap', 'rules', 'config', 'clear'] + check_phases(irange(1, 1 + n), grules, %s if %s is not None else []) + ['report'], 1, 8))" % (SKIPL, SKIPL),
-            "implies(stage == '' and commandLineArguments.fix, exists(lambda n: oplog == old(oplog) + ['read', 'parse', 'indentmap', 'rules', 'config'] + (['backup'] if commandLineArguments.backup else []) + fix_phases(irange(1, commandLineArguments.fix_phase + 1), grules, %s if %s is not None else []) + (['write'] if len(fixlog) > len(old(fixlog)) else []) + ['clear'] + check_phases(irange(1, 1 + n), grules, %s if %s is not None else []) + ['report'], 1, 8))" % (SKIPL, SKIPL, SKIPL, SKIPL),
+            "implies(stage == '' and not commandLineArguments.fix, oplog == %s + ['clear'] + check_phases(irange(1, 1 + nphases), grules, %s) + ['report'])" % (PRE, SKIPL),
+            "implies(stage == '' and commandLineArguments.fix and %s, oplog == %s + (['backup'] if commandLineArguments.backup else []) + fix_phases(irange(1, commandLineArguments.fix_phase + 1), grules, %s) + (['write'] if len(fixlog) > len(old(fixlog)) else []) + ['clear'] + check_phases(irange(1, 1 + nphases), grules, %s) + ['report'])" % (REP, PRE, SKIPL, SKIPL),
+            # C08: what is written is the model the final report is computed from (nothing after the write changes the token list)
+            "implies(stage == '' and commandLineArguments.fix and %s and oserr == '' and len(fixlog) > len(old(fixlog)), fs_content[tIndexFileName[1]] == joinsep('\\n', LINES(gfile)[1:]) + '\\n')" % REP,
+            "implies(stage == '', 1 <= nphases and nphases <= 7 and implies(commandLineArguments.all_phases, nphases == 7))",
             # C14: the exit status of an accepted file is the flag check_rules computed: set iff the final check produced an error-severity violation
             "implies(stage == '', result[0] == (nerr > nerr_mark))",
         ],
